@@ -93,7 +93,7 @@ def check_C02(b, A):
     try:
         base, vs = spellings(A)
         for (tag, txt, att) in vs:
-            if tag in ('index-first', 'disp-first', 'disp-outside', 'disp-middle', 'split-disp', 'split-disp-lead', 'scale-first', 'hex', 'signed'):
+            if tag in ('index-first', 'disp-first', 'disp-outside', 'disp-middle', 'split-disp', 'split-disp-lead', 'scale-first', 'hex', 'hex-upper', 'signed'):
                 variants.append((A, att, txt))
     except asmgen.Unprintable:
         pass
@@ -249,6 +249,7 @@ def spellings(A):
     add('tabs', lambda: base.replace(' ', '\t', 1))
     add('hex', lambda: asmgen.render_intel(A, {'hex': True}))
     add('signed', lambda: asmgen.render_intel(A, {'signed': True}))
+    add('hex-upper', lambda: re.sub(r'\b0x([0-9A-Fa-f]+)\b', lambda m: '0X' + m.group(1), asmgen.render_intel(A, {'hex': True})))
     if any(o[0] == 'mem' and o[1] is not None and o[2] is not None and o[1] != o[2] for o in A['ops']):
         add('index-first', lambda: asmgen.render_intel(A, {'order': 'index_first'}))
     if any(o[0] == 'mem' and (o[1] is not None or o[2] is not None) and 0 < (o[4] & 0xffffffff) < 0x80000000 for o in A['ops']):
@@ -300,6 +301,20 @@ def check_C19(b, A):
         if c is not None and set(c) != s0:
             differ('att', t, c)
             break
+    # the base of a number is presentation in AT&T syntax too: $16 = $0x10 = $0X10, 8(%ebx) = 0x8(%ebx) = 0X8(%ebx)
+    for (t, c) in got:
+        if c is None or set(c) != s0: continue
+        for tag, pre in (('att-hex', '0x'), ('att-hex-upper', '0X')):
+            hx = lambda m: m.group(1) + m.group(2) + pre + '%X' % int(m.group(3))
+            t2 = re.sub(r'(\$)(-?)(\d+)\b', hx, t)
+            t2 = re.sub(r'((?<![\w%$.]))(-?)(\d+)(?=\()', hx, t2)
+            if t2 == t: continue
+            c2, crash = safe_asm(t2, True)
+            if c2 is None:
+                res.append((tag + '-rejected', A['mnem'], '%r assembles but its spelling %r is rejected' % (t, t2)))
+            elif set(c2) != s0:
+                differ(tag, t2, c2)
+        break
     return res
 
 # ------------------------------------------------------------------------------------------------ driver
